@@ -16,7 +16,6 @@ use libtw2_net::{Timeout, Timestamp};
 use proptest::prelude::*;
 use serde::{Deserialize, Serialize};
 use std::collections::BTreeMap;
-use std::convert::Infallible;
 
 pub const KEY_REJECT: &str = "reject-always-panics";
 const NADDR: usize = 4;
@@ -28,16 +27,49 @@ struct NetCb {
     out: Vec<(u8, Vec<u8>)>,
     streams: Vec<SimCb>,
     current: usize,
+    /// injected fault: the application's send callback reports an error (nothing goes out)
+    fail_sends: bool,
+    failed: u32,
+}
+
+/// Callback of the reference connections: a SimCb whose sends can be made to fail like the Net's.
+struct RefCb {
+    inner: SimCb,
+    fail_sends: bool,
+}
+
+impl c6::Callback for RefCb {
+    type Error = ();
+    fn secure_random(&mut self, buffer: &mut [u8]) {
+        c6::Callback::secure_random(&mut self.inner, buffer)
+    }
+    fn send(&mut self, buffer: &[u8]) -> Result<(), ()> {
+        if self.fail_sends {
+            burn();
+            return Err(());
+        }
+        match c6::Callback::send(&mut self.inner, buffer) {
+            Ok(()) => Ok(()),
+            Err(e) => match e {},
+        }
+    }
+    fn time(&mut self) -> Timestamp {
+        c6::Callback::time(&mut self.inner)
+    }
 }
 
 impl Callback<u8> for NetCb {
-    type Error = Infallible;
+    type Error = ();
     fn secure_random(&mut self, buffer: &mut [u8]) {
         let cur = self.current;
         c6::Callback::secure_random(&mut self.streams[cur], buffer)
     }
-    fn send(&mut self, addr: u8, data: &[u8]) -> Result<(), Infallible> {
+    fn send(&mut self, addr: u8, data: &[u8]) -> Result<(), ()> {
         burn();
+        if self.fail_sends {
+            self.failed += 1;
+            return Err(());
+        }
         self.out.push((addr, data.to_vec()));
         Ok(())
     }
@@ -72,6 +104,8 @@ pub enum Op {
     NetSendConnless { a: u8, len: u16 },
     NetTick,
     Advance { dt: u8 },
+    /// fault injection: from now on (until switched off) the application's send callback fails
+    FailSends { on: bool },
 }
 
 #[derive(Clone, Debug, Hash, Serialize, Deserialize)]
@@ -94,7 +128,7 @@ enum NEv {
 struct Local {
     pid: PeerId,
     conn: c6::Connection,
-    cb: SimCb,
+    cb: RefCb,
     pending: bool,
     token: bool,
 }
@@ -142,7 +176,7 @@ impl World {
     fn new(server: bool, reject_open: bool) -> World {
         World {
             net: if server { Net::server() } else { Net::client() },
-            cb: NetCb { now_us: 1_000_000, out: Vec::new(), streams: (0..NADDR).map(|a| SimCb::new(0x2000 + a as u64)).collect(), current: 0 },
+            cb: NetCb { now_us: 1_000_000, out: Vec::new(), streams: (0..NADDR).map(|a| SimCb::new(0x2000 + a as u64)).collect(), current: 0, fail_sends: false, failed: 0 },
             now_us: 1_000_000,
             server,
             locals: BTreeMap::new(),
@@ -182,10 +216,12 @@ impl World {
     }
 
     /// Run a closure on the reference connection of `a`.
-    fn local_call<R>(&mut self, a: u8, what: &str, f: impl FnOnce(&mut c6::Connection, &mut SimCb) -> R) -> Result<R, String> {
+    fn local_call<R>(&mut self, a: u8, what: &str, f: impl FnOnce(&mut c6::Connection, &mut RefCb) -> R) -> Result<R, String> {
         let now = self.now_us;
+        let fail = self.cb.fail_sends;
         let l = self.locals.get_mut(&a).expect("reference connection exists");
-        l.cb.now_us = now;
+        l.cb.inner.now_us = now;
+        l.cb.fail_sends = fail;
         set_fuel(CALL_FUEL);
         let (conn, cb) = (&mut l.conn, &mut l.cb);
         let r = guard(|| f(conn, cb));
@@ -208,7 +244,7 @@ impl World {
         }
         for a in addrs {
             let got = by_addr.remove(&a).unwrap_or_default();
-            let want = self.locals.get_mut(&a).map(|l| std::mem::take(&mut l.cb.out)).unwrap_or_default();
+            let want = self.locals.get_mut(&a).map(|l| std::mem::take(&mut l.cb.inner.out)).unwrap_or_default();
             if got != want {
                 return Err(format!(
                     "{}: datagrams sent to address {} differ from an independent connection fed only that address's traffic:\n net: {:?}\n ref: {:?}",
@@ -269,10 +305,7 @@ impl World {
             let (net, cb) = (&mut self.net, &mut self.cb);
             let r = guard(|| {
                 let (iter, res) = net.feed(cb, &mut warn, a, &data_v, &mut buf[..]);
-                match res {
-                    Ok(()) => {}
-                    Err(e) => match e {},
-                }
+                let _ = res;
                 let mut v = Vec::new();
                 for e in iter {
                     burn();
@@ -295,10 +328,7 @@ impl World {
                 let mut b = [0u8; 2048];
                 let mut w = Warnings::new();
                 let (iter, res) = c.feed(cb, &mut w, &data_v, &mut b[..]);
-                match res {
-                    Ok(()) => {}
-                    Err(e) => match e {},
-                }
+                let _ = res;
                 iter.map(|e| {
                     burn();
                     match e {
@@ -346,11 +376,11 @@ impl World {
                     self.stats.pid_after_removal += 1;
                 }
                 let token = has_token_marker(data);
-                self.locals.insert(a, Local { pid, conn: c6::Connection::new(), cb: SimCb::new(0x2000 + (a as u64 % NADDR as u64)), pending: true, token });
+                self.locals.insert(a, Local { pid, conn: c6::Connection::new(), cb: RefCb { inner: SimCb::new(0x2000 + (a as u64 % NADDR as u64)), fail_sends: false }, pending: true, token });
                 // keep the per-address random stream in step with the Net's
                 let st = self.cb.streams[a as usize % NADDR].clone();
-                self.locals.get_mut(&a).unwrap().cb.rnd_state = st.rnd_state;
-                self.locals.get_mut(&a).unwrap().cb.script = st.script;
+                self.locals.get_mut(&a).unwrap().cb.inner.rnd_state = st.rnd_state;
+                self.locals.get_mut(&a).unwrap().cb.inner.script = st.script;
             } else {
                 if !connects.is_empty() {
                     return Err(format!("{}: datagram [{}] from unknown address {} created a peer (accepting endpoint: {})", what, hex(&data[..data.len().min(24)]), a, self.server));
@@ -509,10 +539,7 @@ impl World {
                 } else {
                     let pid = self.net_call(a as usize, "connect", |n, cb| {
                         let (pid, r) = n.connect(cb, a);
-                        match r {
-                            Ok(()) => {}
-                            Err(e) => match e {},
-                        }
+                        let _ = r;
                         pid
                     })?;
                     if self.locals.values().any(|l| l.pid == pid) {
@@ -523,7 +550,7 @@ impl World {
                     }
                     let mut cb = SimCb::new(0);
                     cb.rnd_state = self.cb.streams[a as usize].rnd_state;
-                    self.locals.insert(a, Local { pid, conn: c6::Connection::new(), cb, pending: false, token: false });
+                    self.locals.insert(a, Local { pid, conn: c6::Connection::new(), cb: RefCb { inner: cb, fail_sends: false }, pending: false, token: false });
                     self.local_call(a, "connect", |c, cb| {
                         let _ = c.connect(cb);
                     })?;
@@ -534,9 +561,8 @@ impl World {
             Op::Accept { p } => match self.pick_peer(*p) {
                 Some(a) if self.locals[&a].pending => {
                     let pid = self.locals[&a].pid;
-                    self.net_call(a as usize, "accept", |n, cb| match n.accept(cb, pid) {
-                        Ok(()) => {}
-                        Err(e) => match e {},
+                    self.net_call(a as usize, "accept", |n, cb| {
+                        let _ = n.accept(cb, pid);
                     })?;
                     let token = self.locals[&a].token;
                     self.local_call(a, "feed(connect)", |c, cb| {
@@ -558,9 +584,8 @@ impl World {
                     }
                     let pid = self.locals[&a].pid;
                     let reason: Vec<u8> = (0..*reason_len.min(&127)).map(|i| b'a' + i % 26).collect();
-                    self.net_call(a as usize, "reject", |n, cb| match n.reject(cb, pid, &reason) {
-                        Ok(()) => {}
-                        Err(e) => match e {},
+                    self.net_call(a as usize, "reject", |n, cb| {
+                        let _ = n.reject(cb, pid, &reason);
                     })?;
                     self.local_call(a, "disconnect", |c, cb| {
                         let _ = c.disconnect(cb, &reason);
@@ -647,8 +672,8 @@ impl World {
             }
             Op::NetTick => {
                 self.net_call(0, "tick", |n, cb| {
-                    for e in n.tick(cb) {
-                        match e {}
+                    for _e in n.tick(cb) {
+                        burn();
                     }
                 })?;
                 let addrs: Vec<u8> = self.locals.keys().cloned().collect();
@@ -662,6 +687,10 @@ impl World {
             }
             Op::Advance { dt } => {
                 self.now_us += DT_US[*dt as usize % DT_US.len()];
+                true
+            }
+            Op::FailSends { on } => {
+                self.cb.fail_sends = *on;
                 true
             }
         };
@@ -719,6 +748,7 @@ fn op_strategy() -> BoxedStrategy<Op> {
         1 => (a, 0u16..1500).prop_map(|(a, len)| Op::NetSendConnless { a, len }),
         4 => Just(Op::NetTick),
         3 => (0u8..7).prop_map(|dt| Op::Advance { dt }),
+        1 => prop::bool::weighted(0.4).prop_map(|on| Op::FailSends { on }),
     ]
     .boxed()
 }
@@ -769,7 +799,8 @@ fn run_case(c: &Case, reject_open: bool) -> PResult {
         .class_if(s.rejects > 0, "reject")
         .class_if(s.ignores > 0, "ignore")
         .class_if(s.crossfeeds > 0, "cross_fed_datagram")
-        .class_if(s.skipped_pending_feed > 0, "datagram_for_undecided_peer_dropped"))
+        .class_if(s.skipped_pending_feed > 0, "datagram_for_undecided_peer_dropped")
+        .class_if(w.cb.failed > 0, "send_callback_failed"))
 }
 
 pub fn run(ctx: &Ctx) {
